@@ -21,12 +21,23 @@
                          with allow_unknown / require_all taken from the field's rules
                          where given, `update` passed on (not for keysrules), wrapped
                          in the rule's group error;
-  The statement "child errors = standalone errors with prefixed paths" needs the
-  path-equivariance of `validate0`; `C10_equivariant_partial` states the proved
-  part (error construction is equivariant); the rest is decided by the oracle
-  (standalone real validators) and the validate0 port.
+  * `C10_equivariant`  — path equivariance of the whole validation, at every depth:
+                         a validator whose document path and schema path are longer at
+                         the front by `dp` / `sp` reports exactly the same errors, with
+                         `dp` / `sp` in front of every path (child errors included);
+  * `C10_detached`     — hence the errors beneath a field are exactly those of the same
+                         validator *detached* from its parent (document path empty, schema
+                         path starting at the field's crumbs; class, configuration and
+                         root document — against which `^` dependencies resolve — kept),
+                         with the field's path put in front.
+  (Proofs/Prefix.lean; `C10_equivariant_partial` is the lemma for one error.)
+  What a *root* validator does differently from a detached child — the
+  `__allow_unknown__` marker crumb, the root document of `^` dependencies — is not
+  equated by any theorem; the oracle (standalone real validators) and the validate0
+  port decide it.
 -/
 import Cerberus.Proofs.Validate
+import Cerberus.Proofs.Prefix
 namespace Cerberus
 open V
 
@@ -169,5 +180,38 @@ theorem C10_equivariant_partial (env : Env) (ctx : Ctx) (p q : List Key) (schema
         | (simp only [pure, Except.pure, Except.ok.injEq] at h; subst h
            simp_all [Err.dp, Err.sp, Err.spStr, Err.code, Err.value, Err.constraint, pure, Except.pure])
         | (simp [raisePy] at h; done)
+
+/-- **path equivariance.**  For every environment, tables, fuel, schema, document, flags
+    and every child context: extending the document path by `dp` and the schema path by
+    `sp` at the front changes nothing but the paths of the reported errors. -/
+theorem C10_equivariant (env : Env) (t : Tables) (n : Nat) (dp sp : List Key) (ctx : Ctx) (schema doc : Val)
+    (upd : Bool) (hne : ctx.schemaPath ≠ []) :
+    validate0 env t n (pp dp sp ctx) schema doc upd = (validate0 env t n ctx schema doc upd).map (preL dp sp) :=
+  validate0_equiv env t n dp sp ctx schema doc upd hne
+
+/-- the child validator of a field, detached from its parent: paths start at the field -/
+def detach (ctx : Ctx) (doc : Val) (ov : Overrides) (f : Key) (sc : List Key) : Ctx :=
+  { ctx.child doc ov (some f) sc with docPath := [], schemaPath := sc }
+
+/-- **the errors beneath a field are those of the detached validation, prefixed by the
+    field's path** — for `schema`, `items`, `valuesrules`, `keysrules` (the crumbs `sc`
+    are never empty), with the overrides `ov` of the rule. -/
+theorem C10_detached (env : Env) (t : Tables) (n : Nat) (ctx : Ctx) (doc : Val) (ov : Overrides) (f : Key)
+    (sc : List Key) (hsc : sc ≠ []) (schema sub : Val) (upd : Bool) :
+    validate0 env t n (ctx.child doc ov (some f) sc) schema sub upd =
+    (validate0 env t n (detach ctx doc ov f sc) schema sub upd).map (preL (ctx.docPath ++ [f]) ctx.schemaPath) := by
+  have h := C10_equivariant env t n (ctx.docPath ++ [f]) ctx.schemaPath (detach ctx doc ov f sc) schema sub upd hsc
+  have he : pp (ctx.docPath ++ [f]) ctx.schemaPath (detach ctx doc ov f sc) = ctx.child doc ov (some f) sc := by
+    simp [pp, detach, Ctx.child]
+  rw [he] at h
+  exact h
+
+/-- the detached validator has the class-independent parts of the child: configuration,
+    root document, child flag -/
+theorem C10_detached_keeps (ctx : Ctx) (doc : Val) (ov : Overrides) (f : Key) (sc : List Key) :
+    (detach ctx doc ov f sc).cfg = (ctx.child doc ov (some f) sc).cfg ∧
+    (detach ctx doc ov f sc).root = (ctx.child doc ov (some f) sc).root ∧
+    (detach ctx doc ov f sc).isChild = true ∧ (detach ctx doc ov f sc).docPath = [] := by
+  simp [detach, Ctx.child]
 
 end Cerberus
